@@ -11,6 +11,7 @@ R13.3  closed descriptors are inert: every descriptor-taking entry point (both A
 R13.4  single access path: only the table helpers touch wasi.fds
 R13.5  prestat: both calls report the stored path of a slot whose path is non-NULL and EBADF otherwise
 """
+import re
 from .. import astdb, pe, wasi as W, runtime
 from ..astdb import kids, walk, AnalysisBroken
 from ..pe import Sym, Ptr, unk, is_sym
@@ -210,7 +211,7 @@ def check_inert(chk, tu, closed_records):
                 continue
             if not pos:
                 continue
-            for which in pos:
+            for which, variant in [(w_, v_) for w_ in pos for v_ in ('typical', 'zero')]:
                 for sname, rec in states:
                     def table():
                         t = std_table(1)
@@ -229,7 +230,9 @@ def check_inert(chk, tu, closed_records):
                             else:
                                 nm = prm.get('name', 'p%d' % i)
                                 if 'Count' in nm or 'count' in nm:
-                                    args.append(1)
+                                    args.append(1 if variant == 'typical' else 0)
+                                elif variant == 'zero' and re.search(r'(Length|Len|Size|length|size)$', nm):
+                                    args.append(0)      # empty buffers / zero-length requests must not bypass the descriptor check
                                 elif nm == 'whence':
                                     args.append(0)      # a valid whence: validity of other arguments is orthogonal
                                 elif 'lags' in nm or 'ights' in nm:
@@ -246,7 +249,7 @@ def check_inert(chk, tu, closed_records):
                         paths = W.explore_entry(tu, fname, mk, table, max_paths=400, errno_value=5, extern_hook=stop_at_native)
                     except pe.PEError as e:
                         raise AnalysisBroken('%s: %s' % (fname, e))
-                    inst = '%s/%s[fd#%d=%s]' % (gen, imp, which, sname)
+                    inst = '%s/%s[fd#%d=%s%s]' % (gen, imp, which, sname, '' if variant == 'typical' else ',zero-sized')
                     site = '%s:%s-descriptor' % (imp, sname)
                     bad_ret = sorted({repr(p.ret) if p.aborted is None else 'no return (%s)' % p.aborted for p in paths if p.ret != BADF})
                     natives = []
